@@ -101,6 +101,62 @@ def static_obligations():
                 if isinstance(n, ast.Call) and isinstance(n.func, ast.Attribute) and n.func.attr in ("append", "add", "setdefault", "update", "extend", "insert") \
                         and isinstance(n.func.value, ast.Name) and n.func.value.id in mutables:
                     bad_global.append(f"{fname}:{fn.name}:{n.lineno} mutates module-level {n.func.value.id} via .{n.func.attr}()")
+    # (4b) closure state: a container created in the body of an enclosing FUNCTION and written by one of its nested functions lives as
+    # long as those nested functions do - for hooks registered by a glue function, that is the life of the process.  Only the
+    # dispatch registries (which hold hooks, not stack-derived objects) may be such state.
+    CONTAINER_CTORS = {"dict", "list", "set", "deque", "defaultdict", "OrderedDict", "WeakKeyDictionary", "WeakValueDictionary", "WeakSet",
+                       "IdentityDict", "Counter"}
+    ALLOWED_CLOSURE_STATE = {("_code_dispatch.py", "decorate", "registry")}
+    bad_closure = []
+    for fname in PKG_FILES:
+        path = os.path.join(source.REPO, "stackscope", fname)
+        if not os.path.exists(path):
+            continue
+        tree = ast.parse(open(path, encoding="utf-8").read())
+        for outer in _functions(tree):
+            owned = set()
+            for st in outer.body:
+                tg = val = None
+                if isinstance(st, ast.Assign) and len(st.targets) == 1 and isinstance(st.targets[0], ast.Name):
+                    tg, val = st.targets[0].id, st.value
+                elif isinstance(st, ast.AnnAssign) and isinstance(st.target, ast.Name) and st.value is not None:
+                    tg, val = st.target.id, st.value
+                if tg is None:
+                    continue
+                ctor = val.func if isinstance(val, ast.Call) else None
+                ctor_name = ctor.attr if isinstance(ctor, ast.Attribute) else (ctor.id if isinstance(ctor, ast.Name) else None)
+                if isinstance(val, (ast.Dict, ast.List, ast.Set, ast.DictComp, ast.ListComp, ast.SetComp)) or ctor_name in CONTAINER_CTORS:
+                    owned.add(tg)
+            if not owned:
+                continue
+            inners = [st for st in outer.body if isinstance(st, (ast.FunctionDef, ast.AsyncFunctionDef))]
+            returned = {n.value.id for n in ast.walk(outer) if isinstance(n, ast.Return) and isinstance(n.value, ast.Name)}
+            # nested functions that OUTLIVE the call of the enclosing function: registered through a decorator, returned, or referenced
+            # from one that is (per-call helpers such as unwrap_stackslice.try_from do not keep state beyond the call)
+            escaping = {f_.name for f_ in inners if f_.decorator_list or f_.name in returned}
+            grew = True
+            while grew:
+                grew = False
+                for f_ in inners:
+                    if f_.name not in escaping and any(isinstance(n, ast.Name) and n.id == f_.name for g_ in inners if g_.name in escaping for n in ast.walk(g_)):
+                        escaping.add(f_.name); grew = True
+            for inner in inners:
+                if inner.name not in escaping:
+                    continue
+                rebound = {a.arg for a in inner.args.args + inner.args.kwonlyargs} | \
+                    {t.id for n in ast.walk(inner) if isinstance(n, ast.Assign) for t in n.targets if isinstance(t, ast.Name)}
+                for n in ast.walk(inner):
+                    nm = None
+                    if isinstance(n, (ast.Assign, ast.AugAssign)):
+                        for t in (n.targets if isinstance(n, ast.Assign) else [n.target]):
+                            if isinstance(t, ast.Subscript) and isinstance(t.value, ast.Name):
+                                nm = t.value.id
+                    if isinstance(n, ast.Call) and isinstance(n.func, ast.Attribute) and isinstance(n.func.value, ast.Name) and \
+                            n.func.attr in ("append", "appendleft", "add", "setdefault", "update", "extend", "insert", "__setitem__"):
+                        nm = n.func.value.id
+                    if nm in owned and nm not in rebound and (fname, outer.name, nm) not in ALLOWED_CLOSURE_STATE:
+                        bad_closure.append(f"{fname}:{outer.name}.{inner.name}:{n.lineno} writes into `{nm}`, a container owned by the enclosing function")
+    out.append(("C06.no_retention.no_closure_state_written_by_registered_hooks", not bad_closure, "; ".join(bad_closure)))
     out.append(("C06.no_memoisation_of_stack_derived_arguments", not bad_memo, "; ".join(bad_memo)))
     out.append(("C06.effects.no_resuming_call_on_targets", not bad_resume, "; ".join(bad_resume)))
     out.append(("C06.deterministic.no_clock_or_rng", not bad_clock, "; ".join(bad_clock)))
